@@ -22,7 +22,7 @@ import shutil
 from . import core
 
 SPEC = core.SPEC / "data"
-ACTIONS = ["DoObs", ("DoMissing", "AddMissing"), "DoDose", "DoOther", "DoReset", "DoResetDose", "Close", "ExpandOne", "SkipExpand", "StartWalk",
+ACTIONS = ["DoObs", ("DoMissing", "AddMissing"), "DoDose", ("DoSmallDose", "AddSmallDose"), "DoOther", "DoReset", "DoResetDose", "Close", "ExpandOne", "SkipExpand", "StartWalk",
            "Walk", "WalkTie", "StartXWalk", "XWalk", "XWalkTie", "Finish"]
 REFUSALS = ("ValueError", "NotImplementedError")   # documented kinds of refusal: counted, never judged
 
@@ -105,6 +105,14 @@ def group_cases(cases):
     """one entry per dataset; the branches of the nondeterministic walker become sets of admitted columns"""
     by = {}
     for c in cases:
+        # rendering of the exact rational amounts amt/amtden (denominators 1 and 4: exact doubles)
+        for seq in (c["data"], c["doses"], c["xdata"]):
+            for r in seq:
+                if "amtden" in r:
+                    den = r.pop("amtden")
+                    r["amt"] = r["amt"] / den if den != 1 else r["amt"]
+        if "total4" in c:
+            c["total"] = c.pop("total4") / 4
         key = json.dumps([sorted(c["cols"]), c["idmode"], c["data"]], sort_keys=True)
         g = by.get(key)
         if g is None:
@@ -252,6 +260,7 @@ def check_dataset(arg):
         "time_recurs_after_reset": bool(case["recurs"] or case["xrecurs"]),
         "has_reset": any(r["evid"] >= 3 for r in case["data"]),
         "has_evid4": any(r["evid"] == 4 for r in case["data"]),
+        "has_dose_below_one": any(0 < r["amt"] < 1 for r in case["data"]),
         "has_missing_observation_record": any(r["evid"] == 0 and r["mdv"] == 1 for r in case["data"]),
         "nondose_follows_dose_at_same_time": _nondose_follows_dose(case),
     }
